@@ -55,6 +55,72 @@ Theorem C05_concrete_descendants : forall m anc a d,
 Proof. exact concrete_descendants_thm. Qed.
 Print Assumptions C05_concrete_descendants.
 
+(** Ancestors = transitive closure of the declared bases, for every class of every
+    well-formed hierarchy in any declaration order ([prims_alone]: a class constraining a
+    primitive type inherits from nothing else — otherwise the ontology fails an assertion). *)
+Theorem C05_ancestors_closure : forall m, wf prims m -> prims_alone prims m ->
+  exists order anc,
+    topo_sort prims m = Ok order /\ onto_ancestors prims m order = Ok anc
+    /\ forall d a, In d (names m) ->
+         (In a (ir_ancestors m anc d) <-> clos_trans name (base prims m) d a).
+Proof. exact (ancestors_closure_thm prims). Qed.
+Print Assumptions C05_ancestors_closure.
+
+(** Full statement (not proved at the level of the whole pass):
+      properties c = dedup (flat_map properties (bases c)) ++ own c   for every class c
+      after [stack_properties] (likewise invariants), and methods likewise or an error.
+    Proved here: the equation established by ONE step of the pass for the class it
+    processes, other entries untouched. Missing: the induction along the topological
+    order showing that the parents' entries read by the step are already final (validated
+    by the correspondence stream and the oracle, which compare the whole lists). *)
+Theorem C05_properties_stacked_partial : forall m (A : Type) (skip : name -> bool)
+    (st : list (name * list (ident A))) n c,
+  skip n = false -> find_class m n = Some c ->
+  lookup n (stack_step prims m skip st n)
+  = Some (dedup id_eqb (flat_map (fun b => lk b st) (class_bases prims c)) ++ lk n st)
+  /\ forall k, k <> n -> lookup k (stack_step prims m skip st n) = lookup k st.
+Proof. exact (stacked_step_thm prims). Qed.
+Print Assumptions C05_properties_stacked_partial.
+
+(** No two properties of the same name in a class of an accepted model (the model
+    crashes like [_set_properties] otherwise). *)
+Theorem C05_properties_nodup : forall m anc pmap c,
+  props_violation prims m anc pmap = false -> In c m -> is_cp prims m anc (c_name c) = false ->
+  NoDup (map id_val (lk (c_name c) pmap)).
+Proof. exact (props_nodup_thm prims). Qed.
+Print Assumptions C05_properties_nodup.
+
+(** Full statement: for every class of an accepted model the in-lined constructor contains
+    no super-constructor call and assigns every property exactly once.
+    Proved here: a step of the constructor pass that reports no error leaves, for its
+    class, a list without super calls that assigns no property twice (repaired behaviour).
+    Missing: that later steps do not overwrite the entry (names are unique) and that every
+    property is assigned at least once (that is [verify_initialized], part of the model's
+    acceptance; checked by correspondence and oracle). *)
+Theorem C05_ctor_inlined_partial : forall m anc kmap err c kmap',
+  ctor_step prims m anc (kmap, err) c = Ok (kmap', false) ->
+  is_cp prims m anc (c_name c) = false ->
+  forallb (fun x => is_assign (id_val x)) (lk (c_name c) kmap') = true
+  /\ NoDup (map (fun x => stmt_prop (id_val x)) (lk (c_name c) kmap')).
+Proof. exact (ctor_step_thm prims). Qed.
+Print Assumptions C05_ctor_inlined_partial.
+
+(** Full statement: has_interface c <-> abstract c \/ descendants c <> [] for every class.
+    Proved here: the step of the interface pass for a class creates an interface exactly
+    in that case, inheriting from the bases. Missing: the fold (every class is processed
+    exactly once because the order is a permutation — [C05_topo_perm]). *)
+Theorem C05_interface_iff_partial : forall m anc st n c st',
+  iface_step prims m anc st n = Ok st' ->
+  is_cp prims m anc n = false -> find_class m n = Some c -> ~ In n (map fst st) ->
+  lookup n st' = Some (if c_abstract c || negb (is_nil (onto_descendants anc n))
+                       then Some (c_bases c) else None).
+Proof. exact (iface_step_thm prims). Qed.
+Print Assumptions C05_interface_iff_partial.
+
+(** [model_type_consistent] (a class has with_model_type iff it or an ancestor sets it,
+    or the model is rejected) is not proved; it is checked by the correspondence stream
+    and by the oracle on every run. *)
+
 (** Non-vacuity: the diamond A; B(A); C(A); D(B,C) is well-formed, accepted, and resolved
     without duplicates; every property is assigned exactly once in D's in-lined constructor. *)
 Open Scope string_scope.
@@ -96,3 +162,10 @@ Proof.
     destruct Hcl.
 Qed.
 Print Assumptions C05_diamond_wf.
+
+Example C05_diamond_prims_alone : prims_alone prims diamond.
+Proof.
+  intros cl Hcl Hp.
+  repeat (destruct Hcl as [<-|Hcl]; [vm_compute in Hp; discriminate|]). destruct Hcl.
+Qed.
+Print Assumptions C05_diamond_prims_alone.
